@@ -17,8 +17,10 @@ def expPlanGen (v : World) (k : Key2) (now : Nat) : Prog :=
   match findExp v k with
   | none => .done .ok
   | some e =>
-    if !e.deleted && !e.fin then .step (.expUpdateFin k e.rv true) (.done .requeue) (.done .err)
-    else if e.deleted && e.fin then .step (.expUpdateFin k e.rv false) (.done .requeue) (.done .err)
+    -- finalizer: added for a live Experiment without it, removed for one under deletion that holds it (`needUpdateFinalizers`)
+    let F (g : Bool → Bool → Bool → Bool → Bool) : Bool := g e.deleted e.fin false false
+    if F expAddFinalizerGuard then .step (.expUpdateFin k e.rv true) (.done .requeue) (.done .err)
+    else if F expRemoveFinalizerGuard then .step (.expUpdateFin k e.rv false) (.done .requeue) (.done .err)
     else
       let sug := findSug v k
       let G (g : Bool → Bool → Bool → Bool → Bool → Bool → Bool → Bool → Bool → Bool → Bool → Bool → Bool → Bool → Bool → Bool → Bool) : Bool :=
@@ -50,7 +52,9 @@ theorem C03_reconcile_guards_known :
     markRestartingGuardUnknown = [] ∧ callCleanupGuardUnknown = [] ∧ callRestartGuardUnknown = [] ∧
     callReconcileExperimentGuardUnknown = [] ∧ markCreatedGuardUnknown = [] ∧
     markRestartingGuardSites = 1 ∧ callCleanupGuardSites = 1 ∧ callRestartGuardSites = 1 ∧
-    callReconcileExperimentGuardSites = 1 ∧ markCreatedGuardSites = 1 := by decide
+    callReconcileExperimentGuardSites = 1 ∧ markCreatedGuardSites = 1 ∧
+    expAddFinalizerGuardUnknown = [] ∧ expRemoveFinalizerGuardUnknown = [] ∧ expCallUpdateFinalizersGuardUnknown = [] ∧
+    expAddFinalizerGuardSites = 1 ∧ expRemoveFinalizerGuardSites = 1 ∧ expCallUpdateFinalizersGuardSites = 1 := by decide
 
 set_option linter.unusedSimpArgs false in
 set_option maxRecDepth 4000 in
@@ -62,9 +66,16 @@ theorem C03_reconcile_is_source (v : World) (k : Key2) (now : Nat) : expPlan v k
   | none => rfl
   | some e =>
     simp only []
+    have hA : expAddFinalizerGuard e.deleted e.fin false false = (!e.deleted && !e.fin) := by
+      unfold expAddFinalizerGuard; cases e.deleted <;> cases e.fin <;> rfl
+    have hR : (expAddFinalizerGuard e.deleted e.fin false false = false) →
+        expRemoveFinalizerGuard e.deleted e.fin false false = (e.deleted && e.fin) := by
+      unfold expAddFinalizerGuard expRemoveFinalizerGuard; cases e.deleted <;> cases e.fin <;> simp
+    rw [hA]
     by_cases h1 : (!e.deleted && !e.fin) = true
     · simp only [h1, if_true]
     · simp only [h1, if_false]
+      rw [hR (by rw [hA]; simpa using h1)]
       by_cases h2 : (e.deleted && e.fin) = true
       · simp only [h2, if_true]
       · simp only [h2, if_false]
